@@ -254,6 +254,8 @@ func (c *Client) validateVirtualChannelFundingProposal(
 	switch {
 	case prop.Initial.Params.ID() != prop.Initial.State.ID:
 		return errors.New("state does not match parameters")
+	case prop.Initial.State.NumParts() != len(prop.Initial.Params.Parts):
+		return errors.New("state does not match number of participants")
 	case !prop.Initial.Params.VirtualChannel:
 		return errors.New("virtual channel flag not set")
 	case len(prop.Initial.State.Locked) > 0:
